@@ -220,7 +220,9 @@ class CapInc:
     def __init__(self, cap, dim):
         self.cap, self.dim = cap, dim
 
-    def __call__(self, n, c, t):
+    def __call__(self, nbhd_arg, cell_arg, step_arg):
+
+        n, c, t = nbhd_arg, cell_arg, step_arg   # not named (n, c, t): the library must call rules positionally
         from harness.twins import unmasked2
         vals = [int(x) for x in np.asarray(n).ravel()] if self.dim == 1 else unmasked2(n)
         return min(max([0] + vals) + 1, self.cap)
@@ -239,7 +241,9 @@ class Dyadic:
     def __init__(self, f, base):
         self.f, self.base = f, base
 
-    def __call__(self, n, c, t):
+    def __call__(self, nbhd_arg, cell_arg, step_arg):
+
+        n, c, t = nbhd_arg, cell_arg, step_arg   # not named (n, c, t): the library must call rules positionally
         if isinstance(n, np.ma.MaskedArray):
             u = to_units(n.data, self.base)
             assert u is not None, 'neighbourhood is not dyadic'
@@ -320,7 +324,9 @@ class ScribblePred:
     def __init__(self, inner):
         self.inner, self.log = inner, inner.log
 
-    def __call__(self, ca, t):
+    def __call__(self, history_arg, count_arg):
+
+        ca, t = history_arg, count_arg   # not named (ca, t): the library must call predicates positionally
         b = self.inner(ca, t)
         try:
             ca[...] = 0
@@ -338,7 +344,9 @@ class RetainPred:
     def intact(self):
         return self.ok and all(np.array_equal(a, b) for a, b in self.kept)
 
-    def __call__(self, ca, t):
+    def __call__(self, history_arg, count_arg):
+
+        ca, t = history_arg, count_arg   # not named (ca, t): the library must call predicates positionally
         self.ok = self.intact()
         b = self.inner(ca, t)
         self.kept.append((ca, np.array(ca, copy=True)))
@@ -350,7 +358,9 @@ class SumOffset:
     def __init__(self, k):
         self.k = k
 
-    def __call__(self, n, c, t):
+    def __call__(self, nbhd_arg, cell_arg, step_arg):
+
+        n, c, t = nbhd_arg, cell_arg, step_arg   # not named (n, c, t): the library must call rules positionally
         return sum(int(x) for x in np.asarray(n).ravel()) + self.k
 
 
@@ -384,7 +394,9 @@ class Capped:
     def __init__(self, f):
         self.f, self.n = f, 0
 
-    def __call__(self, ca, t):
+    def __call__(self, history_arg, count_arg):
+
+        ca, t = history_arg, count_arg   # not named (ca, t): the library must call predicates positionally
         self.n += 1
         if self.n > CAP:
             raise RuntimeError('predicate consulted more than %d times' % CAP)
